@@ -55,6 +55,16 @@ class GraphECU(UDSServer):
         return None
 
 
+class _Junk:
+    """Bytes an ECU puts on the wire that are no answer to the request (only `.pdu` is used by the server loop)."""
+
+    def __init__(self, pdu: bytes) -> None:
+        self.pdu = pdu
+
+    def __repr__(self) -> str:
+        return f"junk({self.pdu.hex()})"
+
+
 class ModelECU(RandomUDSServer):
     """RandomUDSServer with an explicitly given services table (identifier-level answers stay gallia's stateful_rng answers)."""
 
@@ -73,6 +83,9 @@ class ModelECU(RandomUDSServer):
         self.quirks: dict[tuple[int, int], int] = {}
         # request PDUs answered busyRepeatRequest the first k times they are seen (then normally)
         self.busy_first: dict[bytes, int] = {}
+        # (session, sid of a service the ECU does NOT implement there) -> bytes it answers with instead of a proper negative
+        # response: a reply that belongs to no request (other service / truncated)
+        self.garble: dict[tuple[int, int], bytes] = {}
 
     def randomize(self) -> None:
         self.services = {s: dict(sv) for s, sv in self._table.items()}
@@ -87,7 +100,9 @@ class ModelECU(RandomUDSServer):
         sid = request.pdu[0] if request.pdu else -1
         nrc = self.quirks.get((before, sid))
         left = self.busy_first.get(bytes(request.pdu), 0)
-        if left > 0:
+        if (before, sid) in self.garble and not any(int(k) == sid for k in self.services.get(before, {})):
+            resp = _Junk(self.garble[(before, sid)])  # type: ignore[assignment]
+        elif left > 0:
             self.busy_first[bytes(request.pdu)] = left - 1
             resp: service.UDSResponse | None = service.NegativeResponse(sid, UDSErrorCodes(0x21))
         elif nrc is not None and any(int(k) == sid for k in self.services.get(before, {})):
